@@ -97,6 +97,9 @@ pub fn check_osc(c: &OscCase, st: &mut Stats) -> CheckResult {
 
     let mut acc: i128 = 0; // exact sum of steps, modulo 2^64 (i.e. modulo 1.0), in 2^-64 units
     let mut inexact_steps = 0u64;
+    // accumulated rounding allowance: each `(phase + step) % 1.0` rounds once, by at most half an ulp of phase + step
+    let mut tol_acc = 0.0f64;
+    let mut tiny_step = false;
     let mask: i128 = (1i128 << 64) - 1;
     for n in 0..c.frames {
         let (phase, sine, saw, square, simplex) = match &mut five {
@@ -117,7 +120,7 @@ pub fn check_osc(c: &OscCase, st: &mut Stats) -> CheckResult {
             ensure!(inexact_steps == 0, "bad case: exact regime with a step that is not a multiple of 2^-64");
             ensure!(phase == model, "frame {}: phase {} but the sum of frequency/rate steps wrapped into [0,1) is {}", n, phase, model);
         } else {
-            let tol = (n as f64 + 1.0) * 2f64.powi(-52) * (1.0 + step_max) + inexact_steps as f64 * 2f64.powi(-64);
+            let tol = tol_acc + inexact_steps as f64 * 2f64.powi(-64);
             let d = (phase - model).abs();
             let circ = d.min(1.0 - d);
             ensure!(circ <= tol, "frame {}: phase {} is {} away (circularly) from the exact accumulated phase {}; allowed {}", n, phase, circ, model, tol);
@@ -147,6 +150,8 @@ pub fn check_osc(c: &OscCase, st: &mut Stats) -> CheckResult {
         }
         // advance the model
         let s = if hz_len.map_or(false, |l| n >= l) { 0.0 } else { steps[(n % steps.len() as u64) as usize] };
+        tol_acc += 2f64.powi(-52) * (phase + s);
+        tiny_step |= s > 0.0 && s < f64::EPSILON;
         match scaled_round(s) {
             Some((v, ex)) => {
                 acc = (acc + (v & mask)) & mask;
@@ -166,6 +171,8 @@ pub fn check_osc(c: &OscCase, st: &mut Stats) -> CheckResult {
     st.class_if(c.frames > 100_000, "run longer than 1e5 frames");
     st.class_if(c.exact, "exact regime");
     st.class_if(hz.iter().any(|h| *h == 0.0), "zero frequency");
+    st.class_if(tiny_step, "step below 2^-52 (but not zero)");
+    st.class_if(rate < 1.0, "rate below 1");
     st.class_if(hz_len.map_or(false, |l| l < c.frames), "frequency signal exhausted during the run");
     Ok(())
 }
@@ -255,15 +262,18 @@ fn step_strategy(exact: bool) -> BoxedStrategy<f64> {
             2 => (0.0f64..3.0),
             1 => (1.0f64..1e12),
             1 => (0.0f64..1e-9),
-            1 => proptest::sample::select(vec![0.0, 1.0, 0.5, 0.25, 440.0 / 44100.0, 1e-12, 1e12, 0.9999999999999999, 1.0000000000000002]),
+            1 => (1e-19f64..3e-16),
+            1 => proptest::sample::select(vec![0.0, 1.0, 0.5, 0.25, 440.0 / 44100.0, 1e-12, 1e12, 0.9999999999999999, 1.0000000000000002, 1e-17, 8.673617379884035e-19]),
         ]
         .boxed()
     }
 }
 
 pub fn osc_strategy(max_frames: u64) -> impl Strategy<Value = OscCase> {
-    any::<bool>().prop_flat_map(move |exact| {
-        (rate_strategy(exact), proptest::collection::vec(step_strategy(exact), 1..6), 1u64..max_frames, any::<bool>(), prop_oneof![2 => Just(None), 1 => (0u64..200).prop_map(Some)]).prop_map(move |(rate, steps, frames, constant, hz_len)| {
+    (any::<bool>(), 0u32..5).prop_flat_map(move |(exact, tiny)| {
+        // exact regime, one case in five: every step is k x 2^-64 with k < 2^20, so all partial sums stay exactly representable
+        let step = if exact && tiny == 0 { (0u64..(1 << 20)).prop_map(|k| k as f64 * 2f64.powi(-64)).boxed() } else { step_strategy(exact) };
+        (rate_strategy(exact), proptest::collection::vec(step, 1..6), 1u64..max_frames, any::<bool>(), prop_oneof![2 => Just(None), 1 => (0u64..200).prop_map(Some)]).prop_map(move |(rate, steps, frames, constant, hz_len)| {
             let mut hz: Vec<f64> = steps.iter().map(|s| s * rate).collect();
             // exact regime: step * rate must itself be exact and divide back exactly (power-of-two rate: yes)
             if constant {
@@ -281,12 +291,12 @@ pub fn osc_strategy(max_frames: u64) -> impl Strategy<Value = OscCase> {
 pub fn run(ctx: &mut Ctx) {
     ctx.set_rule(
         "oscillators: (rate, frequency sequence (one value = ConstHz path, several = per-frame Hz path), number of frames, exact flag); rates from powers of two, 44100, 48000, 1, 1e-3, 1e9 and random; \
-         frequencies as steps hz/rate in [0, 1e12] incl. 0, >= rate, tiny; exact regime = power-of-two rate and dyadic steps; runs up to 2000 frames plus long runs; noise: seeds 0, 1, 2^32, 2^63, u64::MAX - k and random; \
+         frequencies as steps hz/rate in [0, 1e12] incl. 0, >= rate, tiny (down to 1e-19, below 2^-52); exact regime = power-of-two rate (2^-4 .. 2^20) and dyadic steps, one case in five with every step k x 2^-64; runs up to 2000 frames plus long runs; noise: seeds 0, 1, 2^32, 2^63, u64::MAX - k and random; \
          non-trivial: step >= 1, varying frequency, run > 1e5 frames (oscillators); boundary seed (noise)",
     );
-    ctx.assume("the phase used by an oscillator is observed through an identically driven Phase signal (same code, same frequency sequence); exact regime: phase_n == frac(sum of steps) exactly; general: circular distance <= n*2^-52*(1+step_max)");
+    ctx.assume("the phase used by an oscillator is observed through an identically driven Phase signal (same code, same frequency sequence); exact regime: phase_n == frac(sum of steps) exactly; general: circular distance <= sum over the frames so far of 2^-52 x (phase + step), i.e. one ulp of each addition");
     ctx.assume("sine compared with 2 sin(pi p) cos(pi p) within 1e-12, saw with 1-2p within 4 ulp, square exactly; how the noise counter behaves past u64::MAX is not asserted, only that every frame is produced, in range and reproducible");
-    for c in ["step >= 1 (frequency at or above the rate)", "varying frequency", "run longer than 1e5 frames", "exact regime", "seed within a run length of u64::MAX", "frequency signal exhausted during the run"] {
+    for c in ["step >= 1 (frequency at or above the rate)", "varying frequency", "run longer than 1e5 frames", "exact regime", "seed within a run length of u64::MAX", "frequency signal exhausted during the run", "step below 2^-52 (but not zero)", "rate below 1"] {
         ctx.require_class(c);
     }
     ctx.prop("oscillators/random", ctx.pick(20_000, 100_000), osc_strategy(2000), check_osc);
